@@ -145,6 +145,15 @@ def reject_to_accept(test: ast.expr, var: str):
             acc = _accept_of_compare(inner, var)
             if acc is not None:
                 return acc, tuple(applies)
+        if isinstance(inner, ast.BoolOp) and isinstance(inner.op, ast.And) and all(isinstance(v, ast.Compare) for v in inner.values):
+            # not (lo <= min(x) and max(x) <= hi): conjunction of acceptance tests
+            acc = None
+            for v in inner.values:
+                a = _accept_of_compare(v, var)
+                if a is None:
+                    return None
+                acc = a if acc is None else _intersect(acc, a)
+            return acc, tuple(applies)
         if isinstance(inner, ast.Call) and norm(inner).startswith(f"isinstance({var}, "):
             return ("type", norm(inner)[len(f"isinstance({var}, ") : -1]), tuple(applies)
         return None
@@ -171,3 +180,54 @@ def reject_to_accept(test: ast.expr, var: str):
             parts.append(acc)
         return _intersect(parts[0], parts[1]), tuple(applies)
     return None
+
+
+def refuses_unordered(test: ast.expr, var: str) -> Optional[bool]:
+    """Does a RAISING test fire for a value that is unordered with every number (NaN)?
+
+    Three-valued evaluation with: every ordering / equality comparison that involves ``var`` false
+    (``!=`` true), ``var`` itself truthy, ``var is None`` false.  None = cannot tell."""
+
+    def ev(t: ast.expr) -> Optional[bool]:
+        if isinstance(t, ast.BoolOp):
+            vals = [ev(v) for v in t.values]
+            if isinstance(t.op, ast.And):
+                if any(v is False for v in vals):
+                    return False
+                return True if all(v is True for v in vals) else None
+            if any(v is True for v in vals):
+                return True
+            return False if all(v is False for v in vals) else None
+        if isinstance(t, ast.UnaryOp) and isinstance(t.op, ast.Not):
+            v = ev(t.operand)
+            return None if v is None else not v
+        if isinstance(t, ast.Compare):
+            terms = [t.left] + list(t.comparators)
+            if len(t.ops) == 1 and isinstance(t.ops[0], (ast.Is, ast.IsNot)) and dotted(t.left) == var and isinstance(t.comparators[0], ast.Constant) and t.comparators[0].value is None:
+                return isinstance(t.ops[0], ast.IsNot)
+            res: Optional[bool] = True
+            left = terms[0]
+            for op, right in zip(t.ops, terms[1:]):
+                involved = _is_var(left, var) is not None or _is_var(right, var) is not None
+                if not involved:
+                    link = None
+                elif isinstance(op, (ast.Lt, ast.LtE, ast.Gt, ast.GtE, ast.Eq)):
+                    link = False
+                elif isinstance(op, ast.NotEq):
+                    link = True
+                else:
+                    link = None
+                if link is False:
+                    return False
+                if link is None:
+                    res = None
+                left = right
+            return res
+        if dotted(t) == var:
+            return True
+        if isinstance(t, ast.Call) and dotted(t.func) == "isinstance" and len(t.args) == 2 and dotted(t.args[0]) == var:
+            kinds = norm(t.args[1])
+            return True if any(k in kinds for k in ("float", "Number", "Real")) else None
+        return None
+
+    return ev(test)
